@@ -12,14 +12,14 @@ import math
 import z3
 
 from pyvc import values as V
-from pyvc.values import Sym, SymArr, S, lift
+from pyvc.values import Sym, SymArr, lift
 from pyvc.interp import NS
 from pyvc.registry import Contract
 from pyvc.runner import Lemma, Bounded
 from pyvc.lib import torch_ as tm
 from pyvc.lib import c13_models as cm
 from pyvc.lib.c13_models import CArr, R, cfreq, norm
-from .common import registry, forall, implies, AND, OR, NOT
+from .common import registry, implies, AND, OR, NOT
 
 # evidence strings only: the Python pretty-printer of z3 is quadratic on the large wrap / slice terms of this module
 z3.set_option(max_visited=150, max_depth=12, max_args=8, max_lines=40)
@@ -501,14 +501,14 @@ CCS_COMBOS = [(False, False, False, True), (True, True, True, False), (False, Tr
               (True, True, False, True), (True, False, False, False), (False, True, True, True)]
 
 
-def ccs_setup(ctx):
+def ccs_setup(ctx, subset=(0, 1, 2, 3, 4, 5)):
     Mx, Nx = sizes(ctx)
     up = ctx.fresh("up", "int")
     # option combinations: a pairwise cover (6 of the 12 combinations; every statement that tests an option tests exactly one)
     combos = CCS_COMBOS
     which = ctx.fresh("configuration", "int")
-    ctx.assume(AND(which.t >= 0, which.t < len(combos)))
-    k = next(i for i in range(len(combos)) if i == len(combos) - 1 or ctx.branch(which.t == i))
+    ctx.assume(OR(*[which.t == i for i in subset]))
+    k = next(i for n, i in enumerate(subset) if n == len(subset) - 1 or ctx.branch(which.t == i))
     fft_input, ret, fft_output, ms_none = combos[k]
     ms = None if ms_none else ctx.fresh("max_shift", "real")
     if fft_input:
@@ -611,9 +611,11 @@ def ccs_ensures(s):
     return out
 
 
-C_CCS = Contract(f"{IU}:cross_correlation_shift", setup=ccs_setup, ensures=ccs_ensures)
+# the same contract, verified in two halves of the configuration list (two worker processes)
+C_CCS = Contract(f"{IU}:cross_correlation_shift", setup=lambda ctx: ccs_setup(ctx, (0, 1, 2)), ensures=ccs_ensures)
+C_CCS2 = Contract(f"{IU}:cross_correlation_shift", setup=lambda ctx: ccs_setup(ctx, (3, 4, 5)), ensures=ccs_ensures)
 
-CONTRACTS = [C_DFTT, C_UPS, C_ALIGN, C_CCT, C_DFTN, C_CCS]
+CONTRACTS = [C_CCS, C_CCS2, C_ALIGN, C_DFTT, C_UPS, C_CCT, C_DFTN]
 
 # ------------------------------------------------------------------------------------------------
 # property-level lemmas (from the statements above alone)
@@ -840,7 +842,10 @@ def rt_clauses(inp):
     ref = _image(H, W, inp.get("seed", 0), inp.get("content", "bandlimited"))
     img = ref.copy() if kind == "identical" else _translate(ref, (-s[0], -s[1]))   # translating img by s reproduces ref
     bad = []
-    sh, al, same, det = _estimate(inp, ref, img)
+    try:
+        sh, al, same, det = _estimate(inp, ref, img)
+    except Exception as e:   # the estimators have no documented exceptions for 2-D inputs of equal shape
+        return [("no-exception", f"raised {type(e).__name__}: {e}")]
     if not same:
         bad.append(("inputs-not-mutated", "the caller's arrays differ after the call(s)"))
     if not det:
@@ -856,7 +861,10 @@ def rt_clauses(inp):
     if impl != "torch_fourier" and any(not (-n / 2.0 - 1e-9 <= v < n / 2.0 + 1e-9) for v, n in zip(sh, (H, W))):
         bad.append(("in-centred-cell", f"returned {sh.tolist()} outside [-n/2, n/2) for shape {(H, W)}"))
     # swapping negates (modulo the cell)
-    sw, _, same2, _ = _estimate(inp, img, ref)
+    try:
+        sw, _, same2, _ = _estimate(inp, img, ref)
+    except Exception as e:
+        return bad + [("no-exception", f"swapped call raised {type(e).__name__}: {e}")]
     anti = [abs(_wrapd(sh[i] + sw[i], (H, W)[i])) for i in range(2)]
     if max(anti) > (EXACT_TOL if kind != "subpixel" else 2 * tol):
         bad.append(("swapping-negates", f"shift(a,b)={np.round(sh, 4).tolist()} but shift(b,a)={np.round(sw, 4).tolist()}"))
@@ -882,8 +890,34 @@ def rt_shift(inp):
                          "negated when swapped, aligned image = second image translated by the shift, inputs untouched")
 
 
+def _open_known_classes():
+    from pyvc.runner import load_known
+
+    return {k.get("class") for k in load_known("C13") if k.get("bounded") == BOUNDED[0].name}
+
+
+def rt_shift_replay(inp):
+    """oracle used to replay counter-models of the function contracts: the same clauses, except those whose failure class is an
+    OPEN known finding (otherwise every unrelated failed obligation would be `confirmed` by the known defect)."""
+    import json
+
+    key = json.dumps(inp, sort_keys=True, default=str)
+    if key in _REPLAY_CACHE:
+        return _REPLAY_CACHE[key]
+    if "skip" not in _REPLAY_CACHE:
+        _REPLAY_CACHE["skip"] = _open_known_classes()
+    skip = _REPLAY_CACHE["skip"]
+    bad = [(c, m) for c, m in rt_clauses(inp) if klass_shift(inp, c) not in skip]
+    _REPLAY_CACHE[key] = r = dict(violated=bool(bad), observed="; ".join(f"{c}: {m}" for c, m in bad[:3]) or "ok", clauses=[c for c, _ in bad],
+                expected="shift-recovery contract (clauses with an open known finding excluded)")
+    return r
+
+
+_REPLAY_CACHE = {}   # the real functions are deterministic (checked by the oracle itself): replays of the same input are shared
+
+
 SHAPES_Q = [(8, 8), (9, 9), (8, 13), (12, 9), (16, 16), (17, 16), (15, 20), (24, 24), (25, 18), (33, 17), (32, 33)]
-UPS = (1, 2, 4, 8, 16, 64)
+UPS = (1, 2, 3, 4, 8, 16, 64)   # the property's list plus one odd factor (1.5*up not an integer)
 
 
 def _shifts(H, W, rng):
@@ -892,8 +926,10 @@ def _shifts(H, W, rng):
     return ints, subs
 
 
-def fam_shift(tier="quick", seed=0, impls=("numpy", "torch", "torch_fourier"), ups=UPS):
+def fam_shift(tier="quick", seed=0, impls=("numpy", "torch", "torch_fourier"), ups=None):
     import numpy as np
+
+    ups = ups or (UPS if tier == "quick" else UPS + (5, 32))
 
     shapes = SHAPES_Q if tier == "quick" else SHAPES_Q + [(10, 10), (11, 14), (21, 21), (28, 19), (31, 32), (20, 33)]
     nseed = 1 if tier == "quick" else 3
@@ -916,7 +952,7 @@ def fam_shift(tier="quick", seed=0, impls=("numpy", "torch", "torch_fourier"), u
                         yield dict(base, impl="torch", dtype="float64")
                         if up in (1, 4, 64):
                             yield dict(base, impl="torch", dtype="float32")
-                    if "torch_fourier" in impls and up in (2, 8):
+                    if "torch_fourier" in impls and up in (2, 3, 8):
                         yield dict(base, impl="torch_fourier", dtype="float64")
 
 
@@ -1029,8 +1065,8 @@ def _fam_contract(impls, ups):
 for _c, _impl in ((C_DFTT, "torch"), (C_DFTN, "numpy")):
     _c.concretize, _c.rt = conc_dft(_impl), rt_dft
     _c.rt_family = (lambda i: (lambda: fam_dft("quick", 0, impls=(i,))))(_impl)
-for _c, _impl, _ups in ((C_UPS, "torch", (4, 8)), (C_ALIGN, "torch_fourier", (2, 8)), (C_CCT, "torch", (1, 2, 4)), (C_CCS, "numpy", (1,))):
-    _c.concretize, _c.rt, _c.rt_family = conc_shift(_impl), rt_shift, _fam_contract((_impl,), _ups)
+for _c, _impl, _ups in ((C_UPS, "torch", (4, 8)), (C_ALIGN, "torch_fourier", (2, 8)), (C_CCT, "torch", (1, 2, 4)), (C_CCS, "numpy", (1, 4)), (C_CCS2, "numpy", (1, 4))):
+    _c.concretize, _c.rt, _c.rt_family = conc_shift(_impl), rt_shift_replay, _fam_contract((_impl,), _ups)
 
 def rt_callers(inp):
     """call sites: tomography.utils.cross_correlation_align_stack (numpy, scipy shift by the returned value) and
@@ -1103,7 +1139,7 @@ def fam_callers(tier="quick", seed=0):
 
 BOUNDED = [
     bounded_shift("shift recovery contract on real estimators (numpy + torch)", fam_shift,
-                  "shapes 8..33 odd/even/non-square (11 quick, 17 thorough), upsample {1,2,4,8,16,64}, identical / 4 integer / 4 sub-pixel shifts "
+                  "shapes 8..33 odd/even/non-square (11 quick, 17 thorough), upsample {1,2,3,4,8,16,64} (+5,32 thorough), identical / 4 integer / 4 sub-pixel shifts "
                   "incl. beyond half the size, real and Fourier inputs, fft_output, max_shift, float32/float64; inputs snapshotted and compared, two calls"),
     Bounded.from_rt("matrix-multiply DFT window vs direct trigonometric sum", rt_dft, fam_dft, "6 shapes, 4 factors, 3 centres, numpy + torch", klass=klass_dft),
     Bounded.from_rt("call sites: tomography stack alignment and direct-ptychography reference / pairwise shifts", rt_callers, fam_callers,
@@ -1124,6 +1160,9 @@ ASSUMPTIONS = [
     "A5 DFT axioms trusted; the FFT implementations and the quality of peak search (that the argmax of the correlation IS the applied shift) are outside deductive reach",
     "the statement `returns the applied shift` is decided only by the bounded run-time contract (finite families), never counted as proved",
     "device='gpu' (cupy) branches are not explored",
+    "cross_correlation_shift is verified for 6 of the 12 combinations of (fft_input, return_shifted_image, fft_output, max_shift given): a pairwise "
+    "cover - every statement of the function that tests an option tests exactly one option; upsample_factor, shapes, max_shift value are symbolic on every path",
+    "numpy parabolic_peak divides without a zero test: the vertex clauses are stated for non-zero curvature (unique peak), the flat case is not specified",
     "callers in imaging/drift.py, tomography/utils.py, direct_ptycho_utils.py are not under contract; they rely on the frame + sign clauses proved here",
 ]
 EXPLANATION = ("VCs generated from the real source of dft_upsample, cross_correlation_shift, cross_correlation_shift_torch, align_images_fourier_torch, "
